@@ -58,10 +58,11 @@ HTML_DOCS = {
     'lang': '<html><head><meta http-equiv="content-language" content="de-DE"></head><body><div id="a" lang="en"><p id="b" lang=""><i id="c">x</i></p>'
             '<p id="d" lang="en-US-x-twain"><b id="e"></b></p><p id="f" xml:lang="fr"></p></div><p id="g"></p>'
             '<iframe id="if"><html><head></head><body><p id="h"></p><div lang="zh-Hant-CN"><p id="k"></p></div></body></html></iframe></body></html>',
-    'langmeta': '<html><head><meta http-equiv="Content-Language" content="de"></head><body><p id="a">x</p><div id="b" lang="en"><i id="c"></i></div>'
+    'langmeta': '<html><head><meta class="no-js responsive" name="viewport"><meta http-equiv="Content-Language" content="de"></head><body><p id="a">x</p><div id="b" lang="en"><i id="c"></i></div>'
                 '<iframe id="f1"><html><head><meta http-equiv="content-language" content="fr-CA"></head><body><p id="d">y</p><p id="e" lang="">z</p></body></html></iframe>'
                 '<iframe id="f2"><html><head><meta content="it" http-equiv="content-language"><meta http-equiv="content-language" content="es"></head><body><p id="g"></p></body></html></iframe>'
-                '<iframe id="f3"><p id="h">no head here</p></iframe></body></html>',
+                '<iframe id="f3"><p id="h">no head here</p></iframe>'
+                '<iframe id="f4"><html><head><meta rel="a b" accesskey="k l" class="c d"><meta http-equiv="content-language"></head><body><p id="i"></p></body></html></iframe></body></html>',
     'dir': '<html dir="rtl"><body><p id="a" dir="ltr">x</p><p id="b" dir="auto">אbc</p><p id="c" dir="auto">123</p><bdi id="d">א</bdi>'
            '<input id="e" type="tel"><input id="f" type="text" dir="auto" value="ا"><textarea id="g" dir="auto">abc</textarea><span id="h"><b id="i"></b></span>'
            '<p id="j" dir="bogus"><i id="k"></i></p><iframe id="fr"><html><body><p id="m"></p></body></html></iframe><svg><circle id="n"/></svg></body></html>',
